@@ -73,8 +73,25 @@ def explore_c15(rng, tier, res, deep=False):
     for i in range(n):
         doc = doc_with_all_kinds(rng, rng.choice([2, 3]))
         q = walk_query(rng, doc, g, filters=True) if i % 2 else g.query()
+        if i % 5 == 0:
+            # a singular path to some value of the document, then one more name/index step whatever that value is
+            # (strings, numbers, null, containers): every entry point must treat the extra step alike
+            q = "$"
+            cur = doc
+            while isinstance(cur, (list, dict)) and cur and rng.random() < 0.8:
+                if isinstance(cur, list):
+                    j = rng.randrange(len(cur))
+                    q += f"[{j if rng.random() < 0.7 else j - len(cur)}]"
+                    cur = cur[j]
+                else:
+                    key = rng.choice(list(cur.keys()))
+                    q += "[" + gen.quote_name(rng, key) + "]"
+                    cur = cur[key]
+            q += rng.choice(["[0]", "[-1]", "[1]", "['a']", "['0']", "[0][0]", ".a", "[0]['a']"])
         k = rng.random()
-        if k < 0.25:
+        if i % 5 == 0:
+            pass
+        elif k < 0.25:
             q = gen.mutate(rng, q)
         elif k < 0.3:
             q = rng.choice(["$[?nope(@)]", "$[9007199254740992]", "$[?count(@.a)]", "$[?length(@.*)==1]", "$[", "$.a b", "$[?@.a==01]"])
@@ -164,6 +181,7 @@ def explore_c14(rng, tier, res, deep=False):
         ops_wire = []
         outs_real = []
         docs = [doc_with_all_kinds(rng, 2) for _ in range(3)]
+        eph = [[{"v": 1}, {"v": 2}], [{"v": 1}, {"v": 2}, {"v": 1}], [0, [1], {"a": 2}], [[], 0], [{"a": 1, "b": [2]}], {"a": [1, 2], "b": 1}]
         hist = []
         for _step in range(rng.randint(10, 40)):
             k = rng.random()
@@ -190,6 +208,9 @@ def explore_c14(rng, tier, res, deep=False):
             elif k < 0.5:
                 ei = rng.randrange(len(envs))
                 q = g.query() if rng.random() < 0.8 else gen.mutate(rng, g.query())
+                if rng.random() < 0.35:
+                    q = rng.choice(["$[?@.v == $[2].v]", "$[?@ == $[0]]", "$[?$[1]]", "$..[?@ == $.b]", "$[?@.a == $[0].a]",
+                                    "$[?count($[*]) > 2]", "$.a[?@ < $.b]", "$[?$[?@.v == 2]]", "$[?@ != $[-1]]"])
                 r = outcome(lambda: envs[ei].compile(q))
                 if isinstance(r, str):
                     outs_real.append("raised " + r[4:])
@@ -201,7 +222,12 @@ def explore_c14(rng, tier, res, deep=False):
             elif k < 0.8 and compiled:
                 qi = rng.randrange(len(compiled))
                 ei, q, c = compiled[qi]
-                doc = rng.choice(docs)
+                if rng.random() < 0.5:
+                    doc = rng.choice(docs)
+                else:
+                    # an ephemeral document (freshly decoded, dropped after the call): identity-keyed caches
+                    # meet recycled object ids this way
+                    doc = json.loads(json.dumps(rng.choice(docs + eph)))
                 snap = copy.deepcopy(doc)
                 r = outcome(lambda: enc_list(c.find(doc)))
                 if doc != snap or wire.enc_json(doc) != wire.enc_json(snap):
@@ -229,6 +255,29 @@ def explore_c14(rng, tier, res, deep=False):
                 ops_wire.append(f"(envfind {ei} {wire.enc_str(q)} {wire.enc_json(doc)})")
                 hist.append(("envfind", ei, q))
             res.evaluations += 1
+        # bursts: the same compiled query applied back to back to documents that are decoded, used once and dropped
+        # (nothing else allocated in between), each result compared with a fresh environment's
+        texts = [json.dumps(d) for d in eph + docs]
+        for ei, q, c in compiled[:8]:
+            order = [rng.choice(texts) for _ in range(8)]
+
+            def once(t, c=c):
+                try:
+                    return enc_list(c.find(json.loads(t)))
+                except jp.JSONPathError as e:
+                    return "err " + type(e).__name__
+
+            got = [once(t) for t in order]
+            fresh = real.make_env(descs[ei])
+            for t, g_ in zip(order, got):
+                res.evaluations += 1
+                want = outcome(lambda: enc_list(fresh.find(q, json.loads(t))))
+                if g_ != want:
+                    res.violations.append({"property": "C14", "query": q, "document": json.loads(t), "env": descs[ei],
+                                           "observed": g_[:300], "expected": want[:300],
+                                           "history": ["compile once, then apply to freshly decoded documents back to back: "] + [x[:60] for x in order],
+                                           "what": "a reused compiled query gives a different nodelist than a fresh evaluation of equal data"})
+                    break
         res.nontrivial.add(tuple(str(h) for h in hist))
         res.sample({"history": [str(h)[:80] for h in hist[:8]]})
         pending.append(("hist\t(ops " + " ".join(ops_wire) + ")", outs_real, hist))
